@@ -408,6 +408,9 @@ def run_kani_unit(u, tier, scratch, pid, known):
         elif os.path.isfile(sp):
             res["trusted_scan"] += scan_assumptions(sp, f"{u['id']}/{os.path.basename(sp)}")
     hs = [h for h in u["harnesses"] if tier in h.get("tiers", ["quick", "thorough"]) and (pid is None or pid in h.get("props", u["properties"]))]
+    if os.environ.get("VERIF_HARNESS"):   # dev aid: restrict to harnesses whose name contains one of the comma-separated substrings
+        pats = os.environ["VERIF_HARNESS"].split(",")
+        hs = [h for h in u["harnesses"] if any(p in h["name"] for p in pats)]
     if not hs:
         res["status"] = "pass"
         res["note"] = "no harness of this unit in this tier"
